@@ -578,3 +578,115 @@ func Write(s Spec) ([]byte, error) {
 	}
 	return json.Marshal(doc)
 }
+
+// ---- the plain profile --------------------------------------------------------------------
+
+// PlainProfile reports whether file is a V3 document in the plain form every writer emits
+// and therefore every conforming reader has to accept (given the right password): one JSON
+// object without duplicate or case-variant members at the levels a reader looks at, version
+// the literal 3, a canonical UUID id, cipher aes-128-ctr with a 16-byte IV, a 32-byte MAC, a
+// non-empty ciphertext and salt, every byte string in lower-case hex without prefix, kdf
+// scrypt (n a power of two > 1, r and p >= 1 as plain decimal literals) or pbkdf2 (c >= 1,
+// prf hmac-sha256), dklen the literal 32.  It is deliberately narrower than what Read
+// accepts: the lenient regions of the reader are places where the specification is silent,
+// so no other implementation is obliged to accept them.
+func PlainProfile(file []byte) bool {
+	top, ok := plainObject(file, "id", "version", "crypto", "address")
+	if !ok {
+		return false
+	}
+	var id string
+	if string(bytes.TrimSpace(top["version"])) != "3" || json.Unmarshal(top["id"], &id) != nil || !IsCanonicalUUID(id) {
+		return false
+	}
+	crypto, ok := plainObject(top["crypto"], "cipher", "ciphertext", "cipherparams", "kdf", "kdfparams", "mac")
+	if !ok || string(crypto["cipher"]) != `"`+CipherName+`"` {
+		return false
+	}
+	cp, ok := plainObject(crypto["cipherparams"], "iv")
+	if !ok || plainHexLen(cp["iv"]) != 16 || plainHexLen(crypto["mac"]) != 32 || plainHexLen(crypto["ciphertext"]) < 1 {
+		return false
+	}
+	kp, ok := plainObject(crypto["kdfparams"], "dklen", "salt", "n", "r", "p", "c", "prf")
+	if !ok || string(kp["dklen"]) != "32" || plainHexLen(kp["salt"]) < 1 {
+		return false
+	}
+	switch string(crypto["kdf"]) {
+	case `"` + KDFScrypt + `"`:
+		n, ok1 := plainInt(kp["n"])
+		r, ok2 := plainInt(kp["r"])
+		p, ok3 := plainInt(kp["p"])
+		return ok1 && ok2 && ok3 && CheckScrypt(n, r, p, 32) == nil
+	case `"` + KDFPBKDF2 + `"`:
+		c, ok1 := plainInt(kp["c"])
+		return ok1 && c >= 1 && string(kp["prf"]) == `"`+PRFName+`"`
+	}
+	return false
+}
+
+// plainObject decodes raw as a JSON object and returns its members; ok is false when raw is
+// not an object, a member name occurs twice, or a member name differs from one of the
+// names a reader looks for only by letter case.
+func plainObject(raw []byte, names ...string) (map[string]json.RawMessage, bool) {
+	dec := json.NewDecoder(bytes.NewReader(raw))
+	if t, err := dec.Token(); err != nil || t != json.Delim('{') {
+		return nil, false
+	}
+	out := map[string]json.RawMessage{}
+	for dec.More() {
+		t, err := dec.Token()
+		key, isKey := t.(string)
+		if err != nil || !isKey {
+			return nil, false
+		}
+		if _, dup := out[key]; dup {
+			return nil, false
+		}
+		for _, n := range names {
+			if key != n && strings.EqualFold(key, n) {
+				return nil, false
+			}
+		}
+		var v json.RawMessage
+		if err := dec.Decode(&v); err != nil {
+			return nil, false
+		}
+		out[key] = v
+	}
+	if t, err := dec.Token(); err != nil || t != json.Delim('}') {
+		return nil, false
+	}
+	if _, err := dec.Token(); err == nil { // trailing content
+		return nil, false
+	}
+	return out, true
+}
+
+// plainHexLen is the byte length denoted by a JSON string of lower-case hex digits without
+// prefix or escapes, -1 for anything else.
+func plainHexLen(raw json.RawMessage) int {
+	if len(raw) < 2 || raw[0] != '"' || raw[len(raw)-1] != '"' || len(raw)%2 != 0 {
+		return -1
+	}
+	for _, c := range raw[1 : len(raw)-1] {
+		if !(c >= '0' && c <= '9' || c >= 'a' && c <= 'f') {
+			return -1
+		}
+	}
+	return (len(raw) - 2) / 2
+}
+
+// plainInt reads a decimal integer literal without sign, fraction, exponent or leading zeros.
+func plainInt(raw json.RawMessage) (int64, bool) {
+	s := string(raw)
+	if s == "" || len(s) > 18 || (len(s) > 1 && s[0] == '0') {
+		return 0, false
+	}
+	for i := 0; i < len(s); i++ {
+		if s[i] < '0' || s[i] > '9' {
+			return 0, false
+		}
+	}
+	v, err := strconv.ParseInt(s, 10, 64)
+	return v, err == nil
+}
